@@ -23,7 +23,7 @@ DESC_TIMEOUT = 900
 
 
 def cases(tier, seed):
-    S = 16 if tier == 'quick' else 64
+    S = 32 if tier == 'quick' else 64
     out = []
     for n in range(1, 7):
         out.append({'n': n, 'part': 'actions', 'S': S, 'seed': seed * 131 + n})
